@@ -326,6 +326,8 @@ def regen_coalitions(repo: Path | None = None) -> bool:
 
 def regen_all() -> None:
     regen_coalitions()
+    import registry_dump
+    registry_dump.regen_registry()
 
 
 if __name__ == "__main__":
